@@ -12,7 +12,7 @@ std::string cfgStr(ClipType ct, FillRule fr, int pc, int rev) {
 }
 
 // --- structural predicate: every input whatsoever --------------------------
-bool structural(const Paths64& sol, const Paths64& allInputs, std::string& why) {
+bool structural(const Paths64& sol, const Paths64& allInputs, std::string& why, bool degenerateOk, bool* knownE) {
   int64_t m = O::maxAbs(allInputs);
   bool useBox = m <= (int64_t(1) << 52);
   int64_t l = INT64_MAX, r = INT64_MIN, t = INT64_MAX, b = INT64_MIN;
@@ -22,6 +22,8 @@ bool structural(const Paths64& sol, const Paths64& allInputs, std::string& why) 
     for (size_t k = 0; k < p.size(); ++k) {
       if (p[k] == p[(k + 1) % p.size()]) { why = "consecutive equal vertices " + O::ptStr(p[k]); return false; }
       if (useBox && (p[k].x < l || p[k].x > r || p[k].y < t || p[k].y > b)) {
+        // KF-C03-e: on degenerate input a vertex was seen exactly one unit outside the box
+        if (degenerateOk && p[k].x >= l - 1 && p[k].x <= r + 1 && p[k].y >= t - 1 && p[k].y <= b + 1) { *knownE = true; continue; }
         why = "solution vertex " + O::ptStr(p[k]) + " outside the bounding box of the inputs";
         return false;
       }
@@ -228,7 +230,9 @@ Verdict judgeImpl(const Case& c, bool geo, bool gp) {
           v.evals++;
           std::string why;
           if (!ok) { v.fail("Execute returned false" + cfgStr(ct, fr, pc, rev)); return v; }
-          if (!structural(sol, allWithOpen, why)) { v.fail(why + cfgStr(ct, fr, pc, rev)); return v; }
+          bool knownE = false;
+          if (!structural(sol, allWithOpen, why, !gp, &knownE)) { v.fail(why + cfgStr(ct, fr, pc, rev)); return v; }
+          if (knownE) { v.known = "KF-C03-e"; ST.count("vertex_one_unit_outside_input_bbox"); }
           maxPaths = std::max(maxPaths, sol.size());
           for (auto& p : sol) maxVerts = std::max(maxVerts, p.size());
           if (!geo) continue;
